@@ -24,6 +24,7 @@ type Case struct {
 	Err           prog.ErrSpec `json:"err"`
 	K             int          `json:"k"` // messages sent before the error (server / bidi)
 	ByInterceptor bool         `json:"by_interceptor"`
+	Trailer       []prog.KV    `json:"trailer,omitempty"` // trailers set on the stream before failing (server / bidi); may share keys with the error's metadata
 }
 
 var msgPieces = []string{
@@ -122,6 +123,9 @@ func gen(transports []string) func(t *rapid.T) Case {
 		}
 		if c.Cfg.Kind == prog.Server || c.Cfg.Kind == prog.Bidi {
 			c.K = rapid.IntRange(0, 5).Draw(t, "k")
+			if rapid.Bool().Draw(t, "withTrailers") {
+				c.Trailer = metaGen(t, "trailer") // same key pool as the error metadata
+			}
 		}
 		c.ByInterceptor = rapid.IntRange(0, 3).Draw(t, "byInterceptor") == 0
 		return c
@@ -164,7 +168,7 @@ func check(tt *testing.T, c Case) (pbt.Info, error) {
 	info.Label("kind:" + c.Cfg.Kind)
 	info.Label("transport:" + c.Transport)
 	msgs := sentMsgs(c.K)
-	hp := &prog.HandlerProg{Drain: c.Cfg.Kind == prog.Client}
+	hp := &prog.HandlerProg{Drain: c.Cfg.Kind == prog.Client, Trailer: c.Trailer}
 	for i := range msgs {
 		hp.Steps = append(hp.Steps, prog.HStep{Op: "send", Msg: &msgs[i]})
 	}
@@ -265,6 +269,13 @@ func check(tt *testing.T, c Case) (pbt.Info, error) {
 		}
 		if err := prog.SubsequenceOf(prog.KVMap(c.Err.Meta), res.Err.Meta); err != nil {
 			return info, fmt.Errorf("%s: metadata: %v", where, err)
+		}
+	}
+	if len(c.Trailer) > 0 && !c.ByInterceptor {
+		info.Label("stream-trailers-set-before-error")
+		// trailers the handler set on the stream are part of what it attached
+		if err := prog.SubsequenceOf(prog.KVMap(c.Trailer), res.Err.Meta); err != nil {
+			return info, fmt.Errorf("%s: trailers set on the stream before failing (keys may coincide with the error's metadata): %v", where, err)
 		}
 	}
 	// raw exchange: a failed unary Connect call has a non-2xx status and the
